@@ -3,6 +3,7 @@
 //     space R^2 (bounds +-100); motion validator: a motion is invalid iff it touches one of the vertical walls x = w, lo <= y <= hi;
 //     sampler: the scripted points in order, then (0,0); goal-bias draws from the RNG tape u_k = ((seed + 7k + 3k^2) mod 64)/64;
 //     linear nearest-neighbour structure; IterationTerminationCondition(iters).
+//   RRTN <maxDistance> <goalBias> <threshold> W .. S .. G .. C <ncalls> { <iters> <tapeSeed> P <np> {x y}* }*   several solve() calls on one planner
 //   output: one line "rrt <n>; x y p; ... | <reported 0/1> <approx> <diff> | x y; ..." with doubles as bit patterns
 #define protected public
 #include <ompl/geometric/planners/rrt/RRT.h>
@@ -64,15 +65,25 @@ int main()
     std::string line;
     while (std::getline(std::cin, line))
     {
-        std::istringstream in(line); std::string cmd, tag; double maxd, bias, thr; unsigned iters; unsigned long tseed;
-        if (!(in >> cmd >> maxd >> bias >> thr >> iters >> tseed) || cmd != "RRT") continue;
+        std::istringstream in(line); std::string cmd, tag; double maxd, bias, thr; unsigned iters = 0; unsigned long tseed = 0;
+        if (!(in >> cmd)) continue;
+        const bool multi = cmd == "RRTN";
+        if (cmd != "RRT" && !multi) continue;
+        in >> maxd >> bias >> thr; if (!multi) in >> iters >> tseed;
         std::vector<Wall> walls; std::vector<std::pair<double, double>> starts; double gx = 0, gy = 0;
         auto samples = std::make_shared<std::deque<std::pair<double, double>>>();
         int n;
         in >> tag >> n; for (int i = 0; i < n; ++i) { Wall k; in >> k.w >> k.lo >> k.hi; walls.push_back(k); }
         in >> tag >> n; for (int i = 0; i < n; ++i) { double x, y; in >> x >> y; starts.emplace_back(x, y); }
         in >> tag >> gx >> gy;
-        in >> tag >> n; for (int i = 0; i < n; ++i) { double x, y; in >> x >> y; samples->emplace_back(x, y); }
+        struct Call { unsigned iters; unsigned long tseed; std::vector<std::pair<double, double>> pts; };
+        std::vector<Call> calls;
+        if (multi)
+        {   // C <ncalls> { <iters> <tapeSeed> P <np> {x y}* }*
+            int nc; in >> tag >> nc;
+            for (int c = 0; c < nc; ++c) { Call k; in >> k.iters >> k.tseed >> tag >> n; for (int i = 0; i < n; ++i) { double x, y; in >> x >> y; k.pts.emplace_back(x, y); } calls.push_back(k); }
+        }
+        else { Call k; k.iters = iters; k.tseed = tseed; in >> tag >> n; for (int i = 0; i < n; ++i) { double x, y; in >> x >> y; k.pts.emplace_back(x, y); } calls.push_back(k); }
         auto space = std::make_shared<ob::RealVectorStateSpace>(2); space->setBounds(-100, 100);
         space->setStateSamplerAllocator([samples](const ob::StateSpace *sp) { return std::make_shared<ScriptSampler>(sp, samples); });
         auto si = std::make_shared<ob::SpaceInformation>(space);
@@ -85,22 +96,31 @@ int main()
         planner->setNearestNeighbors<ompl::NearestNeighborsLinear>();
         planner->setRange(maxd); planner->setGoalBias(bias);
         planner->setProblemDefinition(pdef); planner->setup();
-        std::vector<double> tape; for (unsigned long k = 0; k < (unsigned long)iters + 8; ++k) tape.push_back((double)((tseed + 7 * k + 3 * k * k) % 64) / 64.0);
-        ob::IterationTerminationCondition itc(iters);
-        ompl::RNG::verifSetTape(tape.data(), tape.size());
-        planner->solve(ob::PlannerTerminationCondition(itc));
-        ompl::RNG::verifSetTape(nullptr, 0);
+        std::vector<std::string> reports;
+        for (const auto &k : calls)
+        {
+            samples->clear(); for (auto &p : k.pts) samples->push_back(p);
+            pdef->clearSolutionPaths();       // so that the report of this call can be told apart
+            std::vector<double> tape; for (unsigned long q = 0; q < (unsigned long)k.iters + 8; ++q) tape.push_back((double)((k.tseed + 7 * q + 3 * q * q) % 64) / 64.0);
+            ob::IterationTerminationCondition itc(k.iters);
+            ompl::RNG::verifSetTape(tape.data(), tape.size());
+            planner->solve(ob::PlannerTerminationCondition(itc));
+            ompl::RNG::verifSetTape(nullptr, 0);
+            char buf[96]; std::string r;
+            if (pdef->hasSolution())
+            {
+                auto path = std::dynamic_pointer_cast<og::PathGeometric>(pdef->getSolutionPath());
+                std::snprintf(buf, sizeof buf, " | 1 %d %016llx |", pdef->hasApproximateSolution() ? 1 : 0, bits(pdef->getSolutionDifference())); r += buf;
+                for (std::size_t i = 0; i < path->getStateCount(); ++i) { const double *v = path->getState(i)->as<ob::RealVectorStateSpace::StateType>()->values; std::snprintf(buf, sizeof buf, " %016llx %016llx;", bits(v[0]), bits(v[1])); r += buf; }
+            }
+            else r = " | 0 |";
+            reports.push_back(r);
+        }
         std::vector<og::RRT::Motion *> ms; planner->nn_->list(ms);
         std::map<const og::RRT::Motion *, long> idx; for (std::size_t i = 0; i < ms.size(); ++i) idx[ms[i]] = (long)i;
-        std::printf("rrt %zu;", ms.size());
+        std::printf("%s %zu;", multi ? "rrtn" : "rrt", ms.size());
         for (auto *m : ms) { const double *v = m->state->as<ob::RealVectorStateSpace::StateType>()->values; std::printf(" %016llx %016llx %ld;", bits(v[0]), bits(v[1]), m->parent ? idx[m->parent] : -1L); }
-        if (pdef->hasSolution())
-        {
-            auto path = std::dynamic_pointer_cast<og::PathGeometric>(pdef->getSolutionPath());
-            std::printf(" | 1 %d %016llx |", pdef->hasApproximateSolution() ? 1 : 0, bits(pdef->getSolutionDifference()));
-            for (std::size_t i = 0; i < path->getStateCount(); ++i) { const double *v = path->getState(i)->as<ob::RealVectorStateSpace::StateType>()->values; std::printf(" %016llx %016llx;", bits(v[0]), bits(v[1])); }
-        }
-        else std::printf(" | 0 |");
+        for (auto &r : reports) std::printf("%s", r.c_str());
         std::printf("\n"); std::fflush(stdout);
     }
     return 0;
